@@ -11,7 +11,8 @@ CLAIM = dict(
           "induction on the nesting fuel); 遍历, 所有索引/所有值 and display follow the one stored key order. Tie: every generated program is "
           "executed several times in-process (Go draws fresh map iteration orders each time): all repetitions must agree with each other "
           "and with the model; values built by a library (解析JSON of generated documents with objects nested in arrays and objects, then "
-          "displayed and regenerated) are executed eight times in one process and must give one outcome; static inventory of every range-over-map statement in the interpreter's source, checked against the "
+          "displayed and regenerated) are executed eight times in one process and must give one outcome, and so must programs made of "
+          "several module files (whole / selective imports, a module imported again after other imports), six runs each; static inventory of every range-over-map statement in the interpreter's source, checked against the "
           "allow-list of sites whose order is proved or argued unobservable."),
     note=semprop.TB + "取随机数 is excluded; scheduling/timing nondeterminism is not in the single-goroutine model (C16/C20).",
     technique="Coq proof (permutation invariance of structural equality) + repeated-execution correspondence + go/ast map-range inventory",
